@@ -138,7 +138,7 @@ def gen_plan(seed, index, tier):
         plan["cfg"] = {"base": base, "moment": rng.choice(["DP", "EO", "TPR", "ERP"]), "bound": rng.choice([0.01, 0.05])}
         if cls == "EG":
             plan["cfg"].update(eps=rng.choice([0.05, 0.1]), max_iter=rng.choice([3, 6, 10]),
-                               nu=rng.choice([None, 1e-3, 0.05, 0.05]), eta0=2.0, lp=rng.random() < 0.6,
+                               nu=rng.choice([None, 0.0, 1e-3, 0.05, 0.05]), eta0=2.0, lp=rng.random() < 0.6,
                                objective_costs=rng.choice([None, None, {"fp": 1.0, "fn": 1.0}, {"fp": 0.3, "fn": 0.7}]))
         else:
             plan["cfg"].update(grid_size=rng.choice([3, 6, 10]), grid_limit=rng.choice([1.0, 2.0]), cw=rng.choice([0.25, 0.5]))
@@ -169,7 +169,7 @@ def gen_plan(seed, index, tier):
                        "constraints": rng.choice(["demographic_parity", "equalized_odds"]), "d": d}
         plan["data"] = [_adv_dataset(rng, d, cls == "ADVR") for _ in range(ndata)]
     plan["ops"] = _history(rng, cls, index, ndata, tier)
-    plan["seeds"] = [rng.randint(0, 2**31 - 1) for _ in range(3)]
+    plan["seeds"] = [rng.choice([0, 1, 2**32 - 1]) if rng.random() < 0.15 else rng.randint(0, 2**31 - 1) for _ in range(3)]
     plan["ambient"] = [[rng.choice(["np_reseed", "np_consume", "torch_reseed"]), rng.randint(0, 2**31 - 1)] for _ in range(8)]
     plan["clock"] = [[rng.choice(["fwd", "fwd", "back", "stall"]), rng.choice([1e-3, 1.0, 100.0, 1e6])] for _ in range(60)]
     plan["fresh"] = bool(TIERS[tier].get("fresh_every") and index % TIERS[tier]["fresh_every"] == 0)
